@@ -55,6 +55,7 @@ class SockProxy:
         self._s = sock
         self.close_calls = 0
         self.use_after_close = []
+        self.after_recv = None      # optional callback run once, right after the first recv returned data
 
     def _chk(self, what):
         if self.close_calls:
@@ -62,7 +63,11 @@ class SockProxy:
 
     def recv(self, n, *a):
         self._chk("recv")
-        return self._s.recv(n, *a)
+        d = self._s.recv(n, *a)
+        if d and self.after_recv is not None:
+            cb, self.after_recv = self.after_recv, None
+            cb()
+        return d
 
     def send(self, d, *a):
         self._chk("send")
@@ -140,11 +145,13 @@ class Bench:
     def connection(self, data, ending="halfclose", peer=("127.0.0.1", 40000), tcp=False, pre_chunks=None):
         """Serve one connection: the client sends `data` (bytes, or a list of separately sent chunks),
         then ends the way `ending` says: 'halfclose' (SHUT_WR, keeps reading), 'close', 'reset'."""
-        if tcp or ending == "reset":
+        if tcp or ending in ("reset", "reset-after-read"):
             s, c = tcp_pair()
         else:
             s, c = socket.socketpair()
         chunks = data if isinstance(data, (list, tuple)) else [data]
+        if ending == "reset-after-read" and not any(chunks):
+            ending = "reset"            # nothing to read: the server would wait forever for the first byte
         try:
             for ch in chunks:
                 if ch:
@@ -156,7 +163,15 @@ class Bench:
             elif ending == "reset":
                 c.setsockopt(socket.SOL_SOCKET, socket.SO_LINGER, struct.pack("ii", 1, 0))
                 c.close()
-            o = self._serve(s, c if ending == "halfclose" else None, peer)
+            after = None
+            if ending == "reset-after-read":
+                # the client resets the connection between the server's first read and its reply
+                def after(c=c):
+                    import time
+                    c.setsockopt(socket.SOL_SOCKET, socket.SO_LINGER, struct.pack("ii", 1, 0))
+                    c.close()
+                    time.sleep(0.002)
+            o = self._serve(s, c if ending == "halfclose" else None, peer, after)
         finally:
             for x in (s, c):
                 try:
@@ -165,10 +180,11 @@ class Bench:
                     pass
         return o
 
-    def _serve(self, s, c, peer):
+    def _serve(self, s, c, peer, after_recv=None):
         w = self.worker
         n_acc, n_err = len(self.acc.records), len(self.err.records)
         proxy = SockProxy(s)
+        proxy.after_recv = after_recv
         o = Obs()
         o.exc = None
         o.handled = 0
